@@ -20,6 +20,7 @@ pub struct Plan {
     pub napp: usize,
     pub user_maps: Vec<(u64, u64, String, Vec<u8>)>,   // caller-supplied mappings (start, size, name, identifier)
     pub blame_idx: Option<usize>,   // blame this scenario thread (with or without a crash context)
+    pub direct_chain: bool,         // the caller supplies auxiliary values that lead to the synthetic linker list of the target
     pub exit_between: Option<usize>, // with a history: after the abandoned request this thread is taken by another tracer (it exists, but cannot be attached any more)
 }
 
@@ -50,15 +51,17 @@ pub fn gen_plan(rng: &mut Rng, focus: &str, tier: &str, case_idx: u64) -> Plan {
     let low_principal = focus == "c20" && case_idx == 2;     // the principal mapping lies BELOW the executable
     // one fixed C06 shape per run: a crash context blaming a thread at a list position >= 20 under a size limit (never shortened)
     let late_fixed = focus == "c06" && case_idx == 2;
+    let huge_stack = focus == "c06" && case_idx == 3;   // another: one thread with 20 MiB of live stack above its stack pointer
     let many = boundary || late_fixed || (focus == "c06" && rng.chance(1, 2));
     let interrupted = focus == "c04" && case_idx == 1;   // one fixed C04 shape per run: many threads, the dumping thread is interrupted all along
-    let nthreads = if force_k1 || stack_only { 3 } else if interrupted { 24 } else if late_fixed { 26 } else if boundary { 27 } else if many { rng.range(19, if tier == "thorough" { 63 } else { 26 }) } else { match rng.below(4) { 0 => 0, 1 => 1, _ => rng.range(2, 6) } } as usize;
+    let nthreads = if force_k1 || stack_only || huge_stack { 3 } else if interrupted { 24 } else if late_fixed { 26 } else if boundary { 27 } else if many { rng.range(19, if tier == "thorough" { 63 } else { 26 }) } else { match rng.below(4) { 0 => 0, 1 => 1, _ => rng.range(2, 6) } } as usize;
     let offs = [0u32, 8, 2040, 2047, 2048, 2056, 4088, 4095, 0xea0, 0x10];
     let threads: Vec<ThreadSpec> = (0..nthreads).map(|i| ThreadSpec {
-        kind: if force_k1 && i == 1 { Kind::NullSp } else if boundary || stack_only || interrupted { Kind::Block } else if focus == "c04" && rng.chance(1, 5) { Kind::Spin } else if rng.chance(1, 12) { Kind::NullSp } else { Kind::Block },
+        kind: if force_k1 && i == 1 { Kind::NullSp } else if boundary || stack_only || interrupted || huge_stack { Kind::Block } else if focus == "c04" && rng.chance(1, 5) { Kind::Spin } else if rng.chance(1, 12) { Kind::NullSp } else { Kind::Block },
         sp_off: if stack_only { 0x800 } else if boundary && i >= 19 { [0u32, 8, 2040, 2048, 2056, 4088, 4095, 2047][i - 19] } else if rng.chance(3, 4) { *rng.pick(&offs) } else { rng.below(4096) as u32 },
-        pages: if deep_ref && i == 0 { (10 << 16) | 3 } else if rng.chance(1, 6) { rng.range(3, 33) as u32 } else { rng.range(2, 4) as u32 },
-        name: Some(format!("t{i}").into_bytes()),
+        pages: if huge_stack && i == 0 { (5000 << 16) | 3 } else if deep_ref && i == 0 { (10 << 16) | 3 } else if rng.chance(1, 6) { rng.range(3, 33) as u32 } else { rng.range(2, 4) as u32 },
+        // (C04: a name that is not valid UTF-8, or empty, does not make its thread any less of a thread)
+        name: if focus == "c04" && i % 3 == 1 { Some(if i % 2 == 1 { vec![b'w', 0xff, 0xfe, b'k'] } else { vec![] }) } else { Some(format!("t{i}").into_bytes()) },
         // a stack pointer whose low 32 bits are all zero or all one (multiples of 4 GiB): still an ordinary thread
         at: if focus == "c04" && i == 0 && rng.chance(1, 3) { Some(*rng.pick(&[0x7_0000_0000u64, 0x12_0000_0000, 0x6_ffff_ffff, 0x3_0000_0000 - 1])) } else { None } }).map(|mut t| { if t.at.is_some() && t.kind == Kind::NullSp { t.kind = Kind::Block; } t }).collect();
     let mut lines = vec!["anon 3 rwx 1".to_string(), "anon 2 rw- 0".to_string(), "anon 1 r-x 1".to_string()];
@@ -88,12 +91,12 @@ pub fn gen_plan(rng: &mut Rng, focus: &str, tier: &str, case_idx: u64) -> Plan {
         }
     }
     let blame_late = late_fixed || (focus == "c06" && many && !boundary && rng.chance(1, 2));
-    if lost_crash_stack { return Plan { scen: Scenario { threads, lines }, blame_late: false, crash: 1, limit: None, sanitize: false, user_maps: vec![], skip: 6, napp, blame_idx: None, exit_between: None }; }
-    if stack_only { return Plan { scen: Scenario { threads, lines }, blame_late: false, crash: 0, limit: None, sanitize: !low_principal, user_maps: vec![], skip: if low_principal { 5 } else { 4 }, napp, blame_idx: None, exit_between: None }; }
+    if lost_crash_stack { return Plan { scen: Scenario { threads, lines }, blame_late: false, crash: 1, limit: None, sanitize: false, user_maps: vec![], skip: 6, napp, blame_idx: None, direct_chain: false, exit_between: None }; }
+    if stack_only { return Plan { scen: Scenario { threads, lines }, blame_late: false, crash: 0, limit: None, sanitize: !low_principal, user_maps: vec![], skip: if low_principal { 5 } else { 4 }, napp, blame_idx: None, direct_chain: false, exit_between: None }; }
     Plan { scen: Scenario { threads, lines }, blame_late, crash: if blame_late { 2 } else if force_k1 { 3 } else if focus == "c05" || focus == "c07" { rng.below(4) as u8 } else if rng.chance(1, 3) { rng.range(1, 2) as u8 } else { 0 },
            limit: if blame_late || boundary { Some(1) } else if focus == "c06" { if rng.chance(2, 3) { Some(*rng.pick(&[1u64, 1000, 100_000, 200_000, 300_000, 1 << 30])) } else { None } } else if rng.chance(1, 6) { Some(1) } else { None },
            sanitize: rng.chance(1, if focus == "c12" { 1 } else { 5 }), user_maps: vec![],
-           skip: if focus == "c20" { rng.range(1, 3) as u8 } else if rng.chance(1, 8) { 1 } else { 0 }, napp, blame_idx: None, exit_between: None }
+           skip: if focus == "c20" { rng.range(1, 3) as u8 } else if rng.chance(1, 8) { 1 } else { 0 }, napp, blame_idx: None, direct_chain: false, exit_between: None }
 }
 
 pub struct Live { pub target: Target, pub world: World, pub image: Result<Vec<u8>, String>, pub plan: Plan, pub blamed: i32, pub crash: Option<CrashContext>, pub app: Vec<(u64, usize)>, pub principal: Option<u64>, pub events: Vec<String>, pub unattachable: Vec<i32> /* threads another tracer holds: they exist but cannot be attached */ }
@@ -124,6 +127,7 @@ pub fn configure(rng: &mut Rng, plan: &Plan, target: &Target) -> Configured {
         writer.set_crash_context(cc);
         Some(copy)
     } else { None };
+    if plan.direct_chain { writer.set_direct_auxv_dump_info(minidump_writer::minidump_writer::DirectAuxvDumpInfo { program_header_count: 2, program_header_address: target.fact_hex("chain"), linux_gate_address: 0, entry_address: 0 }); }
     if let Some(l) = plan.limit { writer.set_minidump_size_limit(l); }
     if plan.sanitize { writer.sanitize_stack(); }
     let mut principal = None;
@@ -199,7 +203,7 @@ pub fn run_plan_hist(rng: &mut Rng, plan: Plan, work: &str, fail_first: Option<u
 pub fn run_reuse(a: &Args) {
     let mut rng = Rng::new(a.seed ^ 0x19);
     let mut out = Out::new();
-    let aspects: Vec<String> = ["listed", "regs", "crashctx", "region", "memlist", "exception"].iter().map(|s| s.to_string()).collect();
+    let aspects: Vec<String> = ["listed", "regs", "crashctx", "region", "memlist", "exception", "included"].iter().map(|s| s.to_string()).collect();
     let work = format!("{}/tmp", a.out);
     for case_idx in 0..a.n {
         let focus = *rng.pick(&["c07", "c05", "c04", "c20"]);
@@ -217,13 +221,18 @@ pub fn run_reuse(a: &Args) {
                   plan.scen.threads[0].kind = Kind::Block; plan.scen.threads[0].at = None; plan.blame_idx = Some(0); }
         if grow { plan.scen.threads.truncate(3); for t in plan.scen.threads.iter_mut() { if t.kind == Kind::NullSp { t.kind = Kind::Block; } t.at = None; } plan.limit = Some(200_000); plan.blame_late = false; plan.skip = 0; }
         // a thread that can be told to exit between two dumps (the target changes)
-        let exiter = if !grow && !held && case_idx != 1 && rng.chance(1, 2) { plan.scen.threads.push(ThreadSpec { kind: Kind::Exiter, sp_off: 0, pages: 2, name: Some(b"exiter".to_vec()), at: None }); Some(plan.scen.threads.len() - 1) } else { None };
+        // two more fixed histories: caller-supplied auxiliary values (they lead to a synthetic linker list, not the kernel's) must
+        // serve every request; and a caller who re-targets the principal mapping between two requests gets the new answer
+        let supplied = case_idx == 3; let retarget = case_idx == 4;
+        if supplied { plan.scen.lines.push("chain 3 0".into()); plan.direct_chain = true; }
+        if retarget { plan.skip = 1; plan.crash = 0; plan.blame_late = false; plan.limit = None; }
+        let exiter = if !grow && !held && !supplied && !retarget && case_idx != 1 && rng.chance(1, 2) { plan.scen.threads.push(ThreadSpec { kind: Kind::Exiter, sp_off: 0, pages: 2, name: Some(b"exiter".to_vec()), at: None }); Some(plan.scen.threads.len() - 1) } else { None };
         let mut target = match Target::spawn(&plan.scen, &work) { Ok(t) => t, Err(e) => { out.notes.push(format!("case skipped: {e}")); continue; } };
         let cfg_seed = rng.next();
         let mut cfg = configure(&mut Rng(cfg_seed), &plan, &target);
         // another fixed history: between two requests the target replaces its program image (same pid, new auxiliary vector)
         let reexec = case_idx == 1;
-        let ndumps = if grow || reexec || held { 2 } else { rng.range(2, if a.tier == "thorough" { 5 } else { 3 }) };
+        let ndumps = if grow || reexec || held || supplied || retarget { 2 } else { rng.range(2, if a.tier == "thorough" { 5 } else { 3 }) };
         out.count(&format!("dumps.{ndumps}"));
         for k in 0..ndumps {
             if k == 1 && grow {
@@ -246,7 +255,9 @@ pub fn run_reuse(a: &Args) {
             // what it recorded must not leak into the later ones
             if held && k == 0 { unsafe { let t = target.tids[0]; libc::ptrace(libc::PTRACE_SEIZE, t, 0, 0); libc::ptrace(libc::PTRACE_INTERRUPT, t, 0, 0); let mut st = 0; libc::waitpid(t, &mut st, libc::__WALL); } out.count("history.blamed_thread_held_during_first_request"); }
             if held && k == 1 { unsafe { libc::ptrace(libc::PTRACE_DETACH, target.tids[0], 0, 0); } target.settle(); }
-            if !grow && !reexec && !held && k + 1 < ndumps && rng.chance(1, 3) {
+            // between the two requests the caller points the principal mapping at an address that lies in no mapping
+            if retarget && k == 1 { cfg.writer.set_principal_mapping_address(0x10); cfg.principal = Some(0x10); out.count("history.principal_address_changed_between_requests"); }
+            if !grow && !reexec && !held && !supplied && !retarget && k + 1 < ndumps && rng.chance(1, 3) {
                 let fail_at = rng.range(4, 12) as usize;
                 match dump_once_failing(&mut cfg, target.pid, Some(fail_at)) { Ok((Err(_), _, _)) => { out.count("history.failed_request"); } Ok((Ok(_), _, _)) => { out.count("history.failure_not_reached"); } Err(_) => {} }
                 continue;
@@ -263,6 +274,7 @@ pub fn run_reuse(a: &Args) {
                     if k + 1 == ndumps { if let Some(img_reused) = reused_image {
                         target.settle();
                         let mut fresh = configure(&mut Rng(cfg_seed), &plan, &target);
+                        if retarget { fresh.writer.set_principal_mapping_address(0x10); }
                         if let Ok((Ok(img_fresh), _, _)) = dump_once(&mut fresh, target.pid) {
                             let mut l = Line::new("const"); l.0.push(' '); l.0.push_str(&stable_digest(&img_fresh));
                             out.case(l.s(), &stable_digest(&img_reused), true); out.count("twin.compared_with_fresh_writer");
